@@ -29,7 +29,7 @@ Res(hh, hs, c) == [h |-> Clear(hh), handles |-> hs, obs |-> hh.out, fin |-> FinO
 CanApply(h, handles, c, st) ==
   CASE st.k = "sub" -> Len(handles) = st.a - 1
     [] st.k = "emit" -> st.a \in 1..Len(h.regs) /\ st.b \in 1..Len(h.regs[st.a])
-    [] st.k \in {"unsub", "query"} -> st.a \in 1..Len(handles)
+    [] st.k \in {"unsub", "query", "using", "using_panic"} -> st.a \in 1..Len(handles)
     [] st.k = "subj" -> st.a \in 1..Len(c.sbj)
     [] st.k = "connect" -> st.a \in 1..Len(c.conn) /\ c.conn[st.a].kind = "publish" /\ ~h.conn[st.a].some
     [] st.k = "disconnect" -> st.a \in 1..Len(c.conn) /\ c.conn[st.a].kind = "publish" /\ h.conn[st.a].some
@@ -49,7 +49,8 @@ Apply(h, handles, c, root, st) ==
              h2 == CASE st.e = "n" -> CallNext(h1, o, st.v) [] st.e = "e" -> CallError(h1, o, st.v) [] OTHER -> CallComplete(h1, o)
          IN Res(h2, handles, c)
     \* Subscription::unsubscribe() of sink hn's handle (call-and-clear: only the first call acts), then is_subscribed()
-    [] st.k = "unsub" ->
+    \* utils::Using: dropping the guard (at scope exit, or by unwinding out of a panic) unsubscribes
+    [] st.k \in {"unsub", "using", "using_panic"} ->
          LET hn == st.a
              hd == handles[hn]
              h1 == IF h.sinkcnt[hn].live THEN Unsub([h EXCEPT !.sinkcnt[hn].live = FALSE], hd.obs) ELSE h
